@@ -188,7 +188,7 @@ fn c04_client(case: &Case) {
             let req = outstanding.remove(i);
             if simkernel::choose(100) < inject_unknown {
                 srv_case.probe("fault.unknown_id_frame");
-                let f = Frame::new((1u64 << 40) + req.id, b"/nobody", b"{\"t\":0}").with_formats(1, 1);
+                let f = Frame::new((1u64 << 40) + req.id, b"/nobody", b"{\"t\":0}").with_formats(1, 2);
                 if write_all_retry(&mut s, &f.encode()).is_err() {
                     break;
                 }
